@@ -121,10 +121,10 @@ func (s c06Shape) refs() int {
 	case "nildigest":
 		n += 2
 	}
-	if s.out == "D" {
+	if s.out == "D" || s.out == "RD" {
 		n++
 	}
-	if s.errd == "D" {
+	if s.errd == "D" || s.errd == "RD" {
 		n++
 	}
 	return n
@@ -180,12 +180,18 @@ func (s c06Shape) build(pick func(j int) *pb.Digest) (*pb.ActionResult, *pb.Tree
 		ar.OutputDirectories = []*pb.OutputDirectory{{Path: "dir"}}
 	}
 	switch s.out {
+	case "RD": // inline bytes AND a digest: the digest is a reference like any other
+		ar.StdoutRaw = []byte("inline stdout")
+		ar.StdoutDigest = next()
 	case "D":
 		ar.StdoutDigest = next()
 	case "E":
 		ar.StdoutDigest = emptyDigest
 	}
 	switch s.errd {
+	case "RD":
+		ar.StderrRaw = []byte("inline stderr")
+		ar.StderrDigest = next()
 	case "D":
 		ar.StderrDigest = next()
 	case "E":
@@ -197,12 +203,13 @@ func (s c06Shape) build(pick func(j int) *pb.Digest) (*pb.ActionResult, *pb.Tree
 func c06Shapes(thorough bool) []c06Shape {
 	fileSets := [][]string{{}, {"D"}, {"I"}, {"E"}, {"D", "D"}, {"D", "I"}}
 	trees := []string{"", "root1", "root1+child1", "nildigest"}
-	outs := []string{"", "D"}
+	outs := []string{"", "D", "RD"}
 	errs := []string{"", "D", "E"}
 	if thorough {
 		fileSets = append(fileSets, []string{"I", "D"}, []string{"E", "D"}, []string{"I", "I"}, []string{"D", "E"})
 		trees = append(trees, "root2", "root0+child0+child1")
 		outs = append(outs, "E")
+		errs = append(errs, "RD")
 	}
 	var out []c06Shape
 	for _, fs := range fileSets {
@@ -358,7 +365,7 @@ func (p *c06Pool) runCellOver(rep *vlib.Report, cfg string, sh c06Shape, assign 
 	if ans.httpHead != wantH {
 		rep.Violate(fmt.Sprintf("%s HTTP HEAD /ac answered %d, expected %d", k, ans.httpHead, wantH), id, replay)
 	}
-	if ans.grpc == "hit" && wantG == "hit" && !strings.Contains(strings.Join(sh.files, ""), "I") {
+	if ans.grpc == "hit" && wantG == "hit" && !strings.Contains(strings.Join(sh.files, ""), "I") && sh.out != "RD" && sh.errd != "RD" {
 		ar.ExecutionMetadata = ans.ar.ExecutionMetadata
 		if !proto.Equal(ans.ar, ar) {
 			rep.Violate(k+" hit returns another message", id, replay)
